@@ -758,3 +758,23 @@ Proof.
   - eexists. split; vm_compute; reflexivity.
   - eexists. split; vm_compute; reflexivity.
 Qed.
+
+(* ------------------------------------------------------------------ *)
+(* tie of the RFC 6962 layouts above to an independent encoder          *)
+(* (x/crypto cryptobyte, run by the harness): stream "spec"             *)
+(* ------------------------------------------------------------------ *)
+Inductive spec_case :=
+| SLeaf (e : N * N * bspec * bytes * bspec * bspec) (obs : option bspec)
+| SSctInput (ts : N) (e : N * N * bspec * bytes * bspec * bspec) (obs : option bspec)
+| SSthInput (ts size : N) (root : bytes) (obs : bspec)
+| SChain (certs : list bspec) (obs : option bspec)
+| SPrecertChain (pre : bspec) (certs : list bspec) (obs : option bspec).
+
+Definition check_spec_case (c : spec_case) : bool :=
+  match c with
+  | SLeaf e obs => opt_bytes_eqb (rfc_leaf (mk_leaf 0 e)) obs
+  | SSctInput ts e obs => opt_bytes_eqb (rfc_sct_input ts (lf_entry (mk_leaf 0 e))) obs
+  | SSthInput ts size root obs => bytes_eqb (rfc_sth_input ts size root) (expand obs)
+  | SChain certs obs => opt_bytes_eqb (rfc_chain (map expand certs)) obs
+  | SPrecertChain pre certs obs => opt_bytes_eqb (rfc_precert_chain (expand pre) (map expand certs)) obs
+  end.
